@@ -1,16 +1,21 @@
 #!/bin/bash
 # usage: try_refactor.sh <patch.diff>  — applies a behaviour-preserving refactor in a scratch worktree of /repo's HEAD and runs
-# every registered check on it; prints the checks that do not exit 0 (false alarms). Removes the worktree.
+# every registered check on it (10 at a time); prints the checks that do not exit 0 (false alarms). Removes the worktree.
 patch="$1"
 wt=$(mktemp -d /tmp/refac-XXXXXX); rmdir "$wt"
 git -C /repo worktree add -q --detach "$wt" HEAD || exit 2
 cd "$wt"
 if ! git apply --3way "$patch" >/dev/null 2>&1 && ! patch -p1 -F3 < "$patch" >/dev/null 2>&1; then echo "PATCH-DOES-NOT-APPLY"; git -C /repo worktree remove --force "$wt"; exit 2; fi
-mkdir -p "$wt/_v"; cp /verif/known_findings.json "$wt/_v/"
-bad=0
-for p in C01 C02 C03 C04 C05 C06 C07 C08 C09 C10 C11 C12 C13 C14 C15 C16 C17 C18 C19 C20; do
-  out=$(cd /verif && DFS_NO_EVIDENCE=1 ./bin/dfscheck -property $p -repo "$wt" -verif "$wt/_v" 2>&1); rc=$?
-  if [ $rc -ne 0 ]; then bad=1; echo "== $p exit=$rc"; echo "$out" | grep -v "^      via\|KNOWN-FINDING\|^VIOLATION" | grep "violated in\|undecided in\|cannot analyse\|panic\|floor\|^    " | head -8 | cut -c1-260 | sed "s|$wt/||g"; fi
-done
-[ $bad -eq 0 ] && echo "all 20 checks silent"
+mkdir -p "$wt/_o"
+run_one() {
+  p=$1; wt=$2
+  mkdir -p "$wt/_v_$p"; cp /verif/known_findings.json "$wt/_v_$p/"
+  out=$(cd /verif && DFS_NO_EVIDENCE=1 ./bin/dfscheck -property $p -repo "$wt" -verif "$wt/_v_$p" 2>&1); rc=$?
+  if [ $rc -ne 0 ]; then
+    { echo "== $p exit=$rc"; echo "$out" | grep -v "^      via\|KNOWN-FINDING\|^VIOLATION" | grep "violated in\|undecided in\|cannot analyse\|panic\|floor\|^    " | head -8 | cut -c1-260 | sed "s|$wt/||g"; } > "$wt/_o/$p"
+  fi
+}
+export -f run_one
+printf "%s\n" C01 C02 C03 C04 C05 C06 C07 C08 C09 C10 C11 C12 C13 C14 C15 C16 C17 C18 C19 C20 | xargs -P 10 -I{} bash -c "run_one {} $wt"
+if ls "$wt/_o" | grep -q .; then cat "$wt"/_o/*; else echo "all 20 checks silent"; fi
 git -C /repo worktree remove --force "$wt" >/dev/null 2>&1; rm -rf "$wt"
